@@ -432,6 +432,13 @@ func (c *SSEClientTransport) Connect(ctx context.Context) (Connection, error) {
 			if err != nil {
 				return
 			}
+			// Per the SSE specification an event without data is not dispatched,
+			// and only "message" events (the default type, when the event has no
+			// "event" field) carry JSON-RPC messages: anything else (keep-alive
+			// or priming events, a repeated endpoint event) is not for the decoder.
+			if len(evt.Data) == 0 || (evt.Name != "" && evt.Name != "message") {
+				continue
+			}
 			select {
 			case s.incoming <- evt.Data:
 			case <-s.done:
